@@ -191,8 +191,10 @@ def inline_new_temps(func, ref_locals, local_names):
                             unsafe = True
                 if isinstance(n, ast.Call) and isinstance(n.func, ast.Attribute) and n.func.attr in MUTATORS and ast.unparse(n.func.value) in roots:
                     unsafe = True
-            # the local itself must not be mutated (it may name a fresh container that is filled afterwards)
-            for n in region:
+            # the local itself must not be mutated when it names a fresh object (a container that is filled afterwards); an alias of
+            # an existing object (name, attribute, element, getattr) may be written through: x = a.b ; x[k] = v  ==  a.b[k] = v
+            alias = isinstance(e, (ast.Name, ast.Attribute, ast.Subscript)) or (isinstance(e, ast.Call) and isinstance(e.func, ast.Name) and e.func.id == 'getattr')
+            for n in ([] if alias else region):
                 if isinstance(n, ast.Call) and isinstance(n.func, ast.Attribute) and isinstance(n.func.value, ast.Name) and n.func.value.id == t and n.func.attr in MUTATORS:
                     unsafe = True
                 if isinstance(n, (ast.Subscript, ast.Attribute)) and isinstance(getattr(n, 'ctx', None), (ast.Store, ast.Del)) and isinstance(n.value, ast.Name) and n.value.id == t:
@@ -1436,7 +1438,127 @@ def rw_singleton_comp(func, k):
     return True
 
 
-GUIDED = [rw_extract_temp, rw_flatten_comp_filter, rw_first_of_concat, rw_split_tuple_assign, rw_augcomp_to_loop, rw_len_zero, rw_bool_ifexp, rw_singleton_comp, rw_else_after_exit_wrap, rw_else_after_exit_unwrap, rw_comp_to_loop, rw_loop_to_comp, rw_not_compare, rw_demorgan, rw_swap_branches, rw_merge_nested_if, rw_split_and_if, rw_guard_to_swapped_else, rw_swapped_else_to_guard, rw_drop_tail_return, rw_add_tail_return, rw_element_to_index_loop, rw_fuse_loops, rw_late_publication, rw_drop_tail_continue, rw_items_loop, rw_filter_loop, rw_loop_to_update, rw_is_false, rw_hoist_common_tail, rw_sink_common_tail, rw_ifexp_to_if, rw_if_to_ifexp, rw_bool_to_if, rw_kwargs_default, rw_trailing_return, rw_enumerate, rw_return_temp]
+def rw_ndenumerate_value(func, k):
+    """for (i, j), e in np.ndenumerate(A): ... e ...    ->    ... A[i, j] ...        (e not rebound in the body)"""
+    sites = [n for n in ast.walk(func) if isinstance(n, ast.For) and isinstance(n.target, ast.Tuple) and len(n.target.elts) == 2 and isinstance(n.target.elts[1], ast.Name)
+             and isinstance(n.iter, ast.Call) and isinstance(n.iter.func, ast.Attribute) and n.iter.func.attr == 'ndenumerate' and len(n.iter.args) == 1]
+    if k >= len(sites):
+        return False
+    lp = sites[k]
+    e = lp.target.elts[1].id
+    idx = lp.target.elts[0]
+    a = lp.iter.args[0]
+    if any(isinstance(n, ast.Name) and n.id == e and isinstance(n.ctx, ast.Store) for b in lp.body for n in ast.walk(b)):
+        return True
+    sl = copy.deepcopy(idx)
+    for y in ast.walk(sl):
+        if hasattr(y, 'ctx'):
+            y.ctx = ast.Load()
+    for b in lp.body:
+        for n in list(ast.walk(b)):
+            if isinstance(n, ast.Name) and n.id == e and isinstance(n.ctx, ast.Load):
+                replace_node(b, n, fix(ast.Subscript(value=copy.deepcopy(a), slice=copy.deepcopy(sl), ctx=ast.Load()), n))
+    return True
+
+
+def rw_flat_to_ndenumerate(func, k):
+    """for x in A.flat   ->   for _idx, x in np.ndenumerate(A)"""
+    sites = [n for n in ast.walk(func) if isinstance(n, ast.For) and isinstance(n.target, ast.Name) and isinstance(n.iter, ast.Attribute) and n.iter.attr == 'flat']
+    if k >= len(sites):
+        return False
+    lp = sites[k]
+    lp.target = fix(ast.Tuple(elts=[ast.Name(id='_idx_unused', ctx=ast.Store()), lp.target], ctx=ast.Store()), lp.target)
+    lp.iter = fix(ast.Call(func=ast.Attribute(value=ast.Name(id='np', ctx=ast.Load()), attr='ndenumerate', ctx=ast.Load()), args=[lp.iter.value], keywords=[]), lp.iter)
+    return True
+
+
+def rw_slice_zero(func, k):
+    """a[:n]  <->  a[0:n]"""
+    sites = [n for n in ast.walk(func) if isinstance(n, ast.Slice) and (n.lower is None or (isinstance(n.lower, ast.Constant) and n.lower.value == 0)) and n.upper is not None]
+    if k >= len(sites):
+        return False
+    n = sites[k]
+    n.lower = None if n.lower is not None else ast.Constant(value=0)
+    return True
+
+
+def rw_argcomp_to_loop(func, k):
+    """S[... [e for x in it] ...]   ->   _t = [] ; for x in it: _t.append(e) ; S[... _t ...]      (comprehension as call argument)"""
+    sites = []
+    for owner, fld, blk in blocks_of(func):
+        for st in blk:
+            if isinstance(st, ast.Expr) and isinstance(st.value, ast.Call):
+                for a in st.value.args:
+                    if isinstance(a, ast.ListComp):
+                        sites.append((blk, st, a))
+    if k >= len(sites):
+        return False
+    blk, st, comp = sites[k]
+    name = '_xt%d' % (sum(1 for n in ast.walk(func) if isinstance(n, ast.Name) and n.id.startswith('_xt')) + 1)
+    inner = [ast.Expr(value=ast.Call(func=ast.Attribute(value=ast.Name(id=name, ctx=ast.Load()), attr='append', ctx=ast.Load()), args=[comp.elt], keywords=[]))]
+    for g in reversed(comp.generators):
+        for c in reversed(g.ifs):
+            inner = [ast.If(test=c, body=inner, orelse=[])]
+        inner = [ast.For(target=g.target, iter=g.iter, body=inner, orelse=[])]
+    init = ast.Assign(targets=[ast.Name(id=name, ctx=ast.Store())], value=ast.List(elts=[], ctx=ast.Load()))
+    replace_node(st, comp, fix(ast.Name(id=name, ctx=ast.Load()), comp))
+    i = blk.index(st)
+    blk[i:i] = [fix(init, st), fix(inner[0], st)]
+    return True
+
+
+def rw_hoist_return(func, k):
+    """if c: A ; return X else: <exits>    ->    if c: A else: <exits> ; return X        (every branch that does not exit ends with the same return)"""
+    sites = []
+    for owner, fld, blk in blocks_of(func):
+        for i, s in enumerate(blk):
+            if isinstance(s, ast.If) and s.orelse and i == len(blk) - 1:
+                sites.append((blk, i))
+    if k >= len(sites):
+        return False
+    blk, i = sites[k]
+    s = blk[i]
+
+    def leaves(n):
+        out = [n.body]
+        if len(n.orelse) == 1 and isinstance(n.orelse[0], ast.If) and n.orelse[0].orelse:
+            out += leaves(n.orelse[0])
+        else:
+            out.append(n.orelse)
+        return out
+    lv = leaves(s)
+    rets = [b for b in lv if b and isinstance(b[-1], ast.Return)]
+    others = [b for b in lv if not (b and isinstance(b[-1], ast.Return))]
+    if not rets or len({ast.dump(b[-1]) for b in rets}) != 1 or not all(always_exits(b) for b in others) or any(len(b) < 2 for b in rets):
+        return True
+    tail = rets[0][-1]
+    for b in rets:
+        b.pop()
+    blk.append(tail)
+    return True
+
+
+def rw_get_none(func, k):
+    """x = d.get(key)   ->   if key in d: x = d[key] else: x = None"""
+    sites = []
+    for owner, fld, blk in blocks_of(func):
+        for st in blk:
+            if isinstance(st, ast.Assign) and len(st.targets) == 1 and isinstance(st.value, ast.Call) and isinstance(st.value.func, ast.Attribute) and st.value.func.attr == 'get' \
+                    and len(st.value.args) == 1 and not st.value.keywords:
+                sites.append((blk, st))
+    if k >= len(sites):
+        return False
+    blk, st = sites[k]
+    d, key = st.value.func.value, st.value.args[0]
+    a, b = copy.deepcopy(st), copy.deepcopy(st)
+    a.value = ast.Subscript(value=copy.deepcopy(d), slice=copy.deepcopy(key), ctx=ast.Load())
+    b.value = ast.Constant(value=None)
+    new = ast.If(test=ast.Compare(left=copy.deepcopy(key), ops=[ast.In()], comparators=[copy.deepcopy(d)]), body=[a], orelse=[b])
+    blk[blk.index(st)] = fix(new, st)
+    return True
+
+
+GUIDED = [rw_extract_temp, rw_flatten_comp_filter, rw_first_of_concat, rw_split_tuple_assign, rw_augcomp_to_loop, rw_len_zero, rw_bool_ifexp, rw_singleton_comp, rw_ndenumerate_value, rw_flat_to_ndenumerate, rw_slice_zero, rw_argcomp_to_loop, rw_hoist_return, rw_get_none, rw_else_after_exit_wrap, rw_else_after_exit_unwrap, rw_comp_to_loop, rw_loop_to_comp, rw_not_compare, rw_demorgan, rw_swap_branches, rw_merge_nested_if, rw_split_and_if, rw_guard_to_swapped_else, rw_swapped_else_to_guard, rw_drop_tail_return, rw_add_tail_return, rw_element_to_index_loop, rw_fuse_loops, rw_late_publication, rw_drop_tail_continue, rw_items_loop, rw_filter_loop, rw_loop_to_update, rw_is_false, rw_hoist_common_tail, rw_sink_common_tail, rw_ifexp_to_if, rw_if_to_ifexp, rw_bool_to_if, rw_kwargs_default, rw_trailing_return, rw_enumerate, rw_return_temp]
 
 
 def _clone(node):
